@@ -34,7 +34,8 @@ Definition guard_tbl (f : string) : guard :=
   else if String.eqb f "eventlogger.Event.Formatted" then GLock "eventlogger.Event.l"
   else if starts "eventlogger.Event." f then GImmutable
   (* --- stock nodes --- *)
-  else if mem f ["eventlogger.FileSink.f"; "eventlogger.FileSink.BytesWritten"; "eventlogger.FileSink.LastCreated"]
+  else if mem f ["eventlogger.FileSink.f"; "eventlogger.FileSink.BytesWritten"; "eventlogger.FileSink.LastCreated";
+                 "eventlogger.FileSink.clock!"]     (* clock!: the sink reads the wall clock (file stamps, age check) under its lock only *)
   then GLock "eventlogger.FileSink.l"
   else if starts "eventlogger.FileSink." f then GImmutable
   else if starts "eventlogger.Filter." f then GImmutable
@@ -108,6 +109,17 @@ Definition mk (g : string -> guard) (ua : string -> list string) (w : list (stri
 Definition contracts_C12 (pr : program) : contracts := mk (fun _ => GFree) user_acq [] pr.
 (* C12, the waits alone: the named obligation no_blocking_wait_under_registry_lock *)
 Definition contracts_C12_waits (pr : program) : contracts := mk (fun _ => GFree) wait_acq [] pr.
+(* C15's side condition: only the FileSink's clock reads (pseudo field clock!, see translate/) are constrained *)
+Definition contracts_clock (pr : program) : contracts :=
+  mk (fun f => if String.eqb f "eventlogger.FileSink.clock!" then GLock "eventlogger.FileSink.l" else GFree) no_user_acq [] pr.
+
+(* the audited concurrency constructs of the library: goroutine starts and blocking waits that are not mutex operations.
+   The dispatch protocol of graph.process / doProcess (C03's subject) and the channel sink's select; nothing else. *)
+Definition audited_concurrency : list (string * string) :=
+  [("eventlogger.graph.process", "go"); ("eventlogger.graph.process", "wait:WaitGroup.Wait"); ("eventlogger.graph.process", "wait:select");
+   ("eventlogger.graph.doProcess", "go"); ("eventlogger.graph.doProcess", "wait:select"); ("eventlogger.graph.doProcess", "wait:chan-send");
+   ("channel.ChannelSink.Process", "wait:select")].
+
 (* C04: the Broker's registry fields *)
 Definition contracts_C04 (pr : program) : contracts :=
   mk (fun f => if broker_field f then guard_tbl f else GFree) no_user_acq [] pr.
